@@ -112,6 +112,44 @@ type pendingWrite struct {
 	data []byte
 }
 
+// syncedImage is the smallest image the power-loss model allows after the
+// given trace: per file what its last successful SYNC (or TRUNCATE) made
+// durable, directory operations applied in order.
+func syncedImage(trace []FileOp) *diskState {
+	cur := newDisk()
+	synced := newDisk()
+	for i := range trace {
+		op := &trace[i]
+		if op.Kind == "MARK" {
+			continue
+		}
+		cur.apply(op)
+		switch op.Kind {
+		case "OPEN":
+			if op.Err == "" && op.Flags&(os.O_CREATE|os.O_TRUNC) != 0 {
+				if _, ok := synced.files[op.File]; !ok || op.Flags&os.O_TRUNC != 0 {
+					synced.files[op.File] = []byte{}
+				}
+			}
+		case "SYNC":
+			if op.Err == "" {
+				if f, ok := cur.files[op.File]; ok {
+					synced.files[op.File] = append([]byte(nil), f...)
+				}
+			}
+		case "REMOVE":
+			if op.Err == "" {
+				delete(synced.files, op.File)
+			}
+		case "TRUNCATE":
+			if f, ok := cur.files[op.File]; ok {
+				synced.files[op.File] = append([]byte(nil), f...)
+			}
+		}
+	}
+	return synced
+}
+
 type imageSpec struct {
 	disk *diskState
 	desc string
